@@ -37,4 +37,229 @@ theorem cdiv_spec (xr xi yr yi : ℝ) (hy : ¬ (yr = 0 ∧ yi = 0)) :
       exact div_ne_zero (ne_of_gt this) hyi
     constructor <;> (simp only []; field_simp; ring)
 
+/-! ## symmetry test and dispatch (EigenValue.h:1079-1100) -/
+
+/-- the constructor's symmetry flag is the mathematical predicate "A equals its transpose" -/
+theorem symm_dispatch (n : Nat) (A : FMat ℝ) :
+    isSymmetric n A = true ↔ ∀ i j, i < n → j < n → A i j = A j i :=
+  isSymmetric_iff n A
+
+/-- tred2+tql2 run exactly on symmetric input, orthes+hqr2 exactly when some pair differs -/
+theorem dispatch_route (n : Nat) (A : FMat ℝ) :
+    (dispatch n A = .tred2_tql2 ↔ ∀ i j, i < n → j < n → A i j = A j i) ∧
+    (dispatch n A = .orthes_hqr2 ↔ ∃ i j, i < n ∧ j < n ∧ A i j ≠ A j i) := by
+  unfold dispatch
+  by_cases h : isSymmetric n A = true
+  · have h' := (isSymmetric_iff n A).mp h
+    simp only [h, if_true, true_iff, reduceCtorEq, false_iff]
+    refine ⟨h', ?_⟩
+    rintro ⟨i, j, hi, hj, hne⟩; exact hne (h' i j hi hj)
+  · have h' : ¬ ∀ i j, i < n → j < n → A i j = A j i := fun hh => h ((isSymmetric_iff n A).mpr hh)
+    simp only [h, if_false, reduceCtorEq, false_iff, true_iff]
+    refine ⟨h', ?_⟩
+    by_contra hne
+    apply h'
+    intro i j hi hj
+    by_contra hij
+    exact hne ⟨i, j, hi, hj, hij⟩
+
+example : isSymmetric 2 (fun i j => ((i + j : Nat) : ℝ)) = true :=
+  (symm_dispatch 2 _).mpr (fun i j _ _ => by simp [Nat.add_comm])
+
+/-! ## getD (EigenValue.h:1180-1199) -/
+
+/-- `getD` stays inside `D_` exactly when no positive imaginary part sits in the last position and
+no negative one in the first; otherwise it writes outside a row vector (undefined behaviour) -/
+theorem getD_in_range_iff (n : Nat) (d e : Nat → ℝ) :
+    (∃ rows, getD n d e = .ok rows) ↔ ∀ i, i < n → (0 < e i → i + 1 < n) ∧ (e i < 0 → 0 < i) := by
+  constructor
+  · rintro ⟨rows, h⟩
+    by_contra hne
+    have : ∃ i, i < n ∧ ¬ InRangeAt n e i := by
+      by_contra hh; apply hne; intro i hi; by_contra hi'; exact hh ⟨i, hi, hi'⟩
+    have hub := getDRows_ub n d e n (le_refl n) this
+    unfold getD at h; rw [hub] at h; cases h
+  · intro h
+    obtain ⟨rows, h1, _, _⟩ := getDRows_ok n d e n (le_refl n) h
+    exact ⟨rows, h1⟩
+
+theorem getD_ub_iff (n : Nat) (d e : Nat → ℝ) :
+    getD n d e = .error .ub ↔ ∃ i, i < n ∧ ((0 < e i ∧ n ≤ i + 1) ∨ (e i < 0 ∧ i = 0)) := by
+  constructor
+  · intro h
+    by_contra hne
+    have hall : ∀ i, i < n → (0 < e i → i + 1 < n) ∧ (e i < 0 → 0 < i) := by
+      intro i hi
+      refine ⟨fun hp => ?_, fun hm => ?_⟩
+      · by_contra hh; exact hne ⟨i, hi, Or.inl ⟨hp, by omega⟩⟩
+      · by_contra hh; exact hne ⟨i, hi, Or.inr ⟨hm, by omega⟩⟩
+    obtain ⟨rows, hr⟩ := (getD_in_range_iff n d e).mpr hall
+    rw [hr] at h; cases h
+  · rintro ⟨i, hi, hbad⟩
+    apply getDRows_ub n d e n (le_refl n)
+    refine ⟨i, hi, ?_⟩
+    rintro ⟨h1, h2⟩
+    rcases hbad with ⟨hp, hle⟩ | ⟨hm, h0⟩
+    · have := h1 hp; omega
+    · have := h2 hm; omega
+
+/-- when all writes are in range, `getD` returns `n` rows whose entries are exactly the documented
+ones: `d i` on the diagonal, a positive `e i` to the right of it, a negative `e i` to the left -/
+theorem getD_entries (n : Nat) (d e : Nat → ℝ)
+    (hr : ∀ i, i < n → (0 < e i → i + 1 < n) ∧ (e i < 0 → 0 < i)) :
+    ∃ rows, getD n d e = .ok rows ∧ rows.length = n ∧
+      ∀ i j, i < n → j < n → entry? rows i j = some (blockEntry d e i j) :=
+  getDRows_ok n d e n (le_refl n) hr
+
+/-- **getD_blocks.** For well-formed `(d, e)` (a positive imaginary part is followed by its
+conjugate with the same real part, a negative one is preceded by it — the shape `hqr2` produces)
+`getD` writes in range and `D` is block diagonal: `[[d, e], [−e, d]]` for each conjugate pair,
+`[d]` for each real eigenvalue, zero elsewhere.
+
+Note: the hypothesis needs *both* clauses of `PairsWF`; with the forward clause alone
+(`e i > 0 → …`) a negative `e 0` is still an out-of-range write, see
+`getD_forward_clause_insufficient`. -/
+theorem getD_blocks (n : Nat) (d e : Nat → ℝ) (hwf : PairsWF n d e) :
+    ∃ rows, getD n d e = .ok rows ∧ rows.length = n ∧
+      (∀ i j, i < n → j < n → entry? rows i j = some (blockEntry d e i j)) ∧
+      (∀ i, i < n → 0 < e i →
+        entry? rows i i = some (d i) ∧ entry? rows i (i + 1) = some (e i) ∧
+        entry? rows (i + 1) i = some (-(e i)) ∧ entry? rows (i + 1) (i + 1) = some (d i)) ∧
+      (∀ i, i < n → entry? rows i i = some (d i)) ∧
+      (∀ i j, i < n → j < n → i ≠ j → ¬ (j = i + 1 ∧ 0 < e i) → ¬ (i = j + 1 ∧ 0 < e j) →
+        entry? rows i j = some 0) := by
+  obtain ⟨rows, h1, h2, h3⟩ := getD_entries n d e hwf.inRange
+  refine ⟨rows, h1, h2, h3, ?_, ?_, ?_⟩
+  · intro i hi hp
+    obtain ⟨hi1, he1, hd1⟩ := (hwf i hi).1 hp
+    have hneg : e (i + 1) < 0 := by rw [he1]; linarith
+    have hnp : ¬ 0 < e (i + 1) := not_lt.mpr (le_of_lt hneg)
+    refine ⟨?_, ?_, ?_, ?_⟩
+    · rw [h3 i i hi hi]; simp [blockEntry]
+    · rw [h3 i (i + 1) hi hi1]; simp [blockEntry, hp]
+    · rw [h3 (i + 1) i hi1 hi]
+      simp only [blockEntry, ScalarReal.gtb_iff, ScalarReal.ltb_iff, ScalarReal.zero_eq]
+      rw [if_neg (by omega), if_neg (fun h => absurd h.1 (by omega)), if_pos ⟨trivial, hneg⟩, he1]
+    · rw [h3 (i + 1) (i + 1) hi1 hi1]; simp [blockEntry, hd1]
+  · intro i hi
+    rw [h3 i i hi hi]; simp [blockEntry]
+  · intro i j hi hj hij hup hlo
+    rw [h3 i j hi hj]
+    have hji : ¬ j = i := fun h => hij h.symm
+    simp only [blockEntry, hji, if_false, ScalarReal.gtb_iff, ScalarReal.ltb_iff, ScalarReal.zero_eq]
+    rw [if_neg hup]
+    by_cases hm : j + 1 = i ∧ e i < 0
+    · exfalso
+      obtain ⟨hj1, hneg⟩ := hm
+      obtain ⟨_, he, _⟩ := (hwf i hi).2 hneg
+      have hj' : i - 1 = j := by omega
+      rw [hj'] at he
+      exact hlo ⟨hj1.symm, by rw [he]; linarith⟩
+    · rw [if_neg hm]
+
+/-- a malformed `e`: positive imaginary part in the last position — `D_(n-1, n)` is written -/
+theorem getD_malformed_last (n : Nat) (d e : Nat → ℝ) (hn : 0 < n) (h : 0 < e (n - 1)) :
+    getD n d e = .error .ub :=
+  (getD_ub_iff n d e).mpr ⟨n - 1, by omega, Or.inl ⟨h, by omega⟩⟩
+
+/-- a malformed `e`: negative imaginary part in the first position — `D_(0, SIZE_MAX)` is written -/
+theorem getD_malformed_first (n : Nat) (d e : Nat → ℝ) (hn : 0 < n) (h : e 0 < 0) :
+    getD n d e = .error .ub :=
+  (getD_ub_iff n d e).mpr ⟨0, hn, Or.inr ⟨h, rfl⟩⟩
+
+/-- concrete witnesses (1 × 1) -/
+theorem getD_witness_last : getD 1 (fun _ => (0 : ℝ)) (fun _ => 1) = .error .ub :=
+  getD_malformed_last 1 _ _ Nat.one_pos one_pos
+theorem getD_witness_first : getD 1 (fun _ => (0 : ℝ)) (fun _ => -1) = .error .ub :=
+  getD_malformed_first 1 _ _ Nat.one_pos (by norm_num)
+
+/-- the forward clause of well-formedness alone (as in the plan of DESIGN §7) does not exclude an
+out-of-range write -/
+theorem getD_forward_clause_insufficient :
+    ∃ (n : Nat) (d e : Nat → ℝ),
+      (∀ i, i < n → 0 < e i → i + 1 < n ∧ e (i + 1) = -e i ∧ d (i + 1) = d i) ∧
+      getD n d e = .error .ub :=
+  ⟨1, fun _ => 0, fun _ => -1, fun i _ hp => absurd hp (by norm_num), getD_witness_first⟩
+
+/-- the Boolean test the driver runs on the implementation's `(d, e)` is `PairsWF` -/
+theorem pairsWF_decidable (n : Nat) (d e : Nat → ℝ) : pairsWFb n d e = true ↔ PairsWF n d e :=
+  pairsWFb_iff n d e
+
+/-- non-vacuity: one conjugate pair followed by a real eigenvalue -/
+example : PairsWF 3 (fun i => if i < 2 then 1 else 5) (fun i => if i = 0 then 2 else if i = 1 then -2 else 0) := by
+  intro i hi
+  have : i = 0 ∨ i = 1 ∨ i = 2 := by omega
+  rcases this with h | h | h <;> subst h <;> norm_num
+
+/-! ## pow(A, double) and exp(A) (MatrixTools.h:514-545): the wrappers are right *given* a
+correct decomposition and inverse -/
+
+theorem glue_dimension (f : ℝ → ℝ) (nr nc : Nat) (V W : FMat ℝ) (lam : Nat → ℝ) (h : nr ≠ nc) :
+    glue f nr nc V lam W = .error .dimension := by
+  simp [glue, h]
+
+/-- the result of the glue is `V · diag(f λ) · W` -/
+theorem glue_eq (f : ℝ → ℝ) (n : Nat) (V W : FMat ℝ) (lam : Nat → ℝ) :
+    ∃ O, glue f n n V lam W = .ok O ∧
+      toMatrix n O = toMatrix n V * Matrix.diagonal (fun k : Fin n => f (lam k)) * toMatrix n W :=
+  ⟨_, by simp [glue], toMatrix_multDiag n V (fun k => f (lam k)) W⟩
+
+/-- **pow_glue.** If `A·V = V·diag λ` and `V·W = 1` then `pow(A, k)` returns `A^k` (k-fold
+product), for every natural `k` passed as a double. -/
+theorem pow_glue (n : Nat) (A V W : FMat ℝ) (lam : Nat → ℝ) (k : Nat)
+    (hAV : toMatrix n A * toMatrix n V = toMatrix n V * Matrix.diagonal (fun i : Fin n => lam i))
+    (hVW : toMatrix n V * toMatrix n W = 1) :
+    ∃ O, powGlue n n V lam W (k : ℝ) = .ok O ∧ toMatrix n O = toMatrix n A ^ k := by
+  obtain ⟨O, h1, h2⟩ := glue_eq (fun x => Scalar.pow x (k : ℝ)) n V W lam
+  refine ⟨O, h1, ?_⟩
+  rw [h2, eq_conj_of_eigen _ _ _ _ hAV hVW, conj_pow _ _ _ hVW]
+  simp only [ScalarReal.pow_eq, Real.rpow_natCast]
+
+/-- real exponents, positive spectrum: the results form a one-parameter group through `A`
+(`O_p · O_q = O_{p+q}`, `O_1 = A`, `O_0 = 1`), which is what "real matrix power" means; in
+particular `O_{-1}` is the inverse and `O_{1/2}` a square root of `A`. -/
+theorem pow_glue_real (n : Nat) (A V W : FMat ℝ) (lam : Nat → ℝ)
+    (hAV : toMatrix n A * toMatrix n V = toMatrix n V * Matrix.diagonal (fun i : Fin n => lam i))
+    (hVW : toMatrix n V * toMatrix n W = 1) (hpos : ∀ i, i < n → 0 < lam i) :
+    ∃ O : ℝ → FMat ℝ, (∀ p, powGlue n n V lam W p = .ok (O p)) ∧
+      (∀ p q, toMatrix n (O p) * toMatrix n (O q) = toMatrix n (O (p + q))) ∧
+      toMatrix n (O 1) = toMatrix n A ∧ toMatrix n (O 0) = 1 := by
+  refine ⟨fun p => multDiagEntry n V (fun k => Scalar.pow (lam k) p) W, fun p => by simp [powGlue, glue], ?_, ?_, ?_⟩
+  · intro p q
+    simp only [toMatrix_multDiag]
+    rw [conj_mul_conj _ _ hVW]
+    congr 2
+    ext i j
+    by_cases hij : i = j
+    · subst hij
+      simp only [Matrix.diagonal_apply_eq, ScalarReal.pow_eq]
+      exact (Real.rpow_add (hpos i i.isLt) p q).symm
+    · simp [Matrix.diagonal_apply_ne _ hij]
+  · simp only [toMatrix_multDiag, ScalarReal.pow_eq, Real.rpow_one]
+    exact (eq_conj_of_eigen _ _ _ _ hAV hVW).symm
+  · simp only [toMatrix_multDiag, ScalarReal.pow_eq, Real.rpow_zero]
+    have : (Matrix.diagonal fun _ : Fin n => (1 : ℝ)) = 1 := Matrix.diagonal_one
+    rw [this, Matrix.mul_one, hVW]
+
+/-- **exp_glue.** If `A·V = V·diag λ` and `V·W = 1` then `exp(A)` returns the matrix exponential
+`Σ A^k / k!` (Mathlib's `NormedSpace.exp`). -/
+theorem exp_glue (n : Nat) (A V W : FMat ℝ) (lam : Nat → ℝ)
+    (hAV : toMatrix n A * toMatrix n V = toMatrix n V * Matrix.diagonal (fun i : Fin n => lam i))
+    (hVW : toMatrix n V * toMatrix n W = 1) :
+    ∃ O, expGlue n n V lam W = .ok O ∧ toMatrix n O = NormedSpace.exp (toMatrix n A) := by
+  obtain ⟨O, h1, h2⟩ := glue_eq Scalar.exp n V W lam
+  refine ⟨O, h1, ?_⟩
+  rw [h2, eq_conj_of_eigen _ _ _ _ hAV hVW, conj_exp _ _ _ hVW]
+  simp only [ScalarReal.exp_eq]
+
+/-- non-vacuity of the hypotheses of `pow_glue` / `exp_glue`: a 2 × 2 matrix with eigenvalues 1, 3 -/
+example : ∃ (A V W : FMat ℝ) (lam : Nat → ℝ),
+    toMatrix 2 A * toMatrix 2 V = toMatrix 2 V * Matrix.diagonal (fun i : Fin 2 => lam i) ∧
+    toMatrix 2 V * toMatrix 2 W = 1 ∧ ∀ i, i < 2 → 0 < lam i := by
+  refine ⟨fun i j => if i = j then 2 else 1, fun i j => if i = 0 ∧ j = 0 then -1 else 1,
+    fun i j => if i = 0 ∧ j = 0 then -1/2 else 1/2, fun i => if i = 0 then 1 else 3, ?_, ?_, ?_⟩
+  · ext i j; fin_cases i <;> fin_cases j <;> simp [toMatrix, Matrix.mul_apply, Fin.sum_univ_two, Matrix.diagonal] <;> norm_num
+  · ext i j; fin_cases i <;> fin_cases j <;> simp [toMatrix, Matrix.mul_apply, Fin.sum_univ_two] <;> norm_num
+  · intro i hi; beta_reduce; split <;> norm_num
+
 end Bpp.C06
